@@ -35,7 +35,7 @@ func C20(c *Ctx) {
 	c20Adapt(c)
 }
 
-var reHashField = regexp.MustCompile(`msg\.(Participants|Messages)\[[^\]]*\]\.([A-Za-z]+)|msg\.(DKGID|Threshold)`)
+var reHashField = regexp.MustCompile(`json\(\w+\)\.(Participants|Messages)\[[^\]]*\]\.([A-Za-z]+)|json\(\w+\)\.(DKGID|Threshold)`)
 
 func c20Hash(c *Ctx) {
 	r := c.R
@@ -92,10 +92,10 @@ func c20Hash(c *Ctx) {
 	ssax.Instrs(fn, func(in ssa.Instruction) {
 		if ia, ok := in.(*ssa.IndexAddr); ok {
 			p := ssax.Path(ia.X)
-			if strings.HasSuffix(p, "msg.Participants") {
+			if strings.HasSuffix(p, ").Participants") && strings.HasPrefix(p, "json(") {
 				iterStart["Participants"] = in
 			}
-			if strings.HasSuffix(p, "msg.Messages") {
+			if strings.HasSuffix(p, ").Messages") && strings.HasPrefix(p, "json(") {
 				iterStart["Messages"] = in
 			}
 		}
@@ -211,7 +211,7 @@ func c20Replay(c *Ctx) {
 	}
 	pc := pcs[0]
 	arg := ssax.Path(pc.Common().Args[1])
-	r.Check(strings.Contains(arg, "req.Messages[") || strings.Contains(arg, ".Messages["), "C20/R3", "node.reinitDKG:replay-source", "each replayed message is an element of the file's message list, in slice order", c.PosOf(pc), "processMessage argument is "+arg)
+	r.Check(strings.Contains(arg, "json(message.Data).Messages["), "C20/R3", "node.reinitDKG:replay-source", "each replayed message is an element of the file's message list, in slice order", c.PosOf(pc), "processMessage argument is "+arg)
 	// stop at the first signing start: the replay call is unreachable past the equal edge of msg.Event == event_signing_start
 	var stop []ssax.Edge
 	for _, cd := range ssax.Conds(fn) {
@@ -238,7 +238,7 @@ func c20Replay(c *Ctx) {
 	if len(news) == 1 {
 		a := news[0].Common().Args
 		st, _ := ssax.ConstString(a[2])
-		r.Check(strings.HasSuffix(ssax.Path(a[0]), "req.DKGID") && strings.Contains(ssax.Path(a[1]), "json.Marshal(") && st == "reinit_dkg", "C20/R3", "node.reinitDKG:operation", "one reinit_dkg operation for the file's round carrying the collected operations", c.PosOf(news[0]),
+		r.Check(ssax.Path(a[0]) == "json(message.Data).DKGID" && strings.Contains(ssax.Path(a[1]), "json.Marshal(") && st == "reinit_dkg", "C20/R3", "node.reinitDKG:operation", "one reinit_dkg operation for the file's round carrying the collected operations", c.PosOf(news[0]),
 			"NewOperation("+ssax.Path(a[0])+", "+ssax.Path(a[1])+", "+st+")")
 	} else {
 		r.Unknown("C20/R3", "node.reinitDKG:operation", "one NewOperation", c.Pos(fn.Pos()), sprintf("%d", len(news)))
@@ -261,12 +261,15 @@ func c20Replay(c *Ctx) {
 	})
 	r.Check(coll, "C20/R3", "node.reinitDKG:collect", "every operation returned by the replay is collected", c.Pos(fn.Pos()), "append(operations, <processMessage result>) not found")
 	// new comm keys registered for every participant, before SaveFSM
-	sets := ssax.Calls(fn, false, func(ci ssa.CallInstruction) bool { o := ssax.CalleeObj(ci); return o != nil && o.Name() == "SetPubKeyUsername" })
+	sets := ssax.Calls(fn, false, func(ci ssa.CallInstruction) bool {
+		o := ssax.CalleeObj(ci)
+		return o != nil && o.Name() == "SetPubKeyUsername"
+	})
 	saves := ssax.Calls(fn, false, func(ci ssa.CallInstruction) bool { o := ssax.CalleeObj(ci); return o != nil && o.Name() == "SaveFSM" })
 	dumps := ssax.Calls(fn, false, func(ci ssa.CallInstruction) bool { o := ssax.CalleeObj(ci); return o != nil && o.Name() == "Dump" })
 	if len(sets) == 1 && len(saves) == 1 && len(dumps) == 1 {
 		a := sets[0].Common().Args
-		r.Check(strings.Contains(ssax.Path(a[1]), "req.Participants[") && strings.HasSuffix(ssax.Path(a[1]), ".Name") && strings.HasSuffix(ssax.Path(a[2]), ".NewCommPubKey"), "C20/R3", "node.reinitDKG:new-keys", "each participant's new communication key is registered under the participant's name", c.PosOf(sets[0]), ssax.Path(a[1])+" -> "+ssax.Path(a[2]))
+		r.Check(strings.Contains(ssax.Path(a[1]), "json(message.Data).Participants[") && strings.HasSuffix(ssax.Path(a[1]), ".Name") && strings.HasSuffix(ssax.Path(a[2]), ".NewCommPubKey"), "C20/R3", "node.reinitDKG:new-keys", "each participant's new communication key is registered under the participant's name", c.PosOf(sets[0]), ssax.Path(a[1])+" -> "+ssax.Path(a[2]))
 		// Dump happens after the key loop: Dump unreachable from entry without passing the loop header... approximated: the save stores the dump taken after the updates
 		r.Check(ssax.ResultOf(saves[0].Common().Args[len(saves[0].Common().Args)-1], dumps[0], 0) && ssax.ReachableFrom(fn, sets[0], dumps[0], nil, nil) && !ssax.ReachableFrom(fn, dumps[0], sets[0], nil, nil), "C20/R3", "node.reinitDKG:save-after-keys", "the round is dumped and saved after the key update", c.PosOf(saves[0]), "SaveFSM does not persist the dump taken after SetPubKeyUsername")
 	} else {
@@ -318,7 +321,7 @@ func c20HandBack(c *Ctx) {
 			})
 			r.Check(extra, "C20/R4", "airgapped.handleReinitDKG:extra-data", "ExtraData := PubPolyBytes()", c.Pos(fn.Pos()), "ExtraData is not the public polynomial bytes")
 			// replay argument: each element of the unmarshalled operations
-			r.Check(strings.Contains(ssax.Path(gors[0].Common().Args[1]), "[") , "C20/R4", "airgapped.handleReinitDKG:replay-each", "every collected operation is run through the ordinary handlers", c.PosOf(gors[0]), "argument is "+ssax.Path(gors[0].Common().Args[1]))
+			r.Check(strings.Contains(ssax.Path(gors[0].Common().Args[1]), "["), "C20/R4", "airgapped.handleReinitDKG:replay-each", "every collected operation is run through the ordinary handlers", c.PosOf(gors[0]), "argument is "+ssax.Path(gors[0].Common().Args[1]))
 		} else {
 			r.Unknown("C20/R4", "airgapped.handleReinitDKG:shape", "replay + keyring + public bytes", c.Pos(fn.Pos()), sprintf("GetOperationResult=%d loadBLSKeyring=%d PubPolyBytes=%d", len(gors), len(loads), len(pubs)))
 		}
@@ -373,7 +376,8 @@ func c20Adapt(c *Ctx) {
 	ssax.Instrs(fn, func(in ssa.Instruction) {
 		if st, ok := in.(*ssa.Store); ok {
 			if fa, ok := st.Addr.(*ssa.FieldAddr); ok && ssax.OwnerName(fa) == "Message" {
-				if a, isAlloc := fa.X.(*ssa.Alloc); isAlloc && a.Comment == "m" {
+				// the local that holds (a copy of) an original message: some store into it comes from originalDKG.Messages[i]
+				if a, isAlloc := fa.X.(*ssa.Alloc); isAlloc && holdsOriginalMessage(a) {
 					mods = append(mods, ssax.FieldOf(fa).Name())
 				}
 			}
@@ -391,4 +395,21 @@ func c20Adapt(c *Ctx) {
 		}
 	})
 	r.Check(strings.HasSuffix(hdr["DKGID"], "originalDKG.DKGID") && strings.HasSuffix(hdr["Threshold"], "originalDKG.Threshold") && strings.HasSuffix(hdr["Participants"], "originalDKG.Participants"), "C20/R5", "node.GetAdaptedReDKG:header", "round id, threshold and participants are copied unchanged", c.Pos(fn.Pos()), sprintf("%v", hdr))
+}
+
+// holdsOriginalMessage: a whole-value store into the local comes from an element of originalDKG.Messages (not from the
+// constructed self-confirmation).
+func holdsOriginalMessage(a *ssa.Alloc) bool {
+	if a.Referrers() == nil {
+		return false
+	}
+	for _, r := range *a.Referrers() {
+		if st, ok := r.(*ssa.Store); ok && st.Addr == ssa.Value(a) {
+			p := ssax.Path(st.Val)
+			if strings.Contains(p, "originalDKG.Messages[") && !strings.Contains(p, "createMessage(") {
+				return true
+			}
+		}
+	}
+	return false
 }
